@@ -221,7 +221,11 @@ func c20Token(c *Ctx) {
 		return
 	}
 	nOff := 0
-	for _, b := range rd.Blocks {
+	var rdBlocks []*ssa.BasicBlock
+	for _, hf := range withHelpers(rd, 2) { // the cutting may sit in a helper of the analysis
+		rdBlocks = append(rdBlocks, hf.Blocks...)
+	}
+	for _, b := range rdBlocks {
 		for _, in := range b.Instrs {
 			call, ok := in.(*ssa.Call)
 			if !ok || len(call.Call.Args) != 2 {
@@ -548,6 +552,13 @@ func c20CtxFields(c *Ctx) {
 			}
 			k, isC := call.Call.Args[1].(*ssa.Const)
 			if !isC {
+				// the flag computed from the method itself: Method == ANNOUNCE
+				if bo, isBo := call.Call.Args[1].(*ssa.BinOp); isBo && bo.Op == token.EQL {
+					if kk, okk := bo.Y.(*ssa.Const); okk && kk.Value != nil && kk.Value.Kind() == constant.String && constant.StringVal(kk.Value) == "ANNOUNCE" && strings.HasSuffix(core.PathOf(bo.X), ".Method") {
+						r.OK("C20/CTX-FIELDS", fmt.Sprintf("%s getPathAndQuery call #%d announce flag", fnShort(ref.Caller), i+1), p.Pos(call.Pos()), "isAnnounce = (Method == ANNOUNCE)")
+						continue
+					}
+				}
 				r.Fail("C20/CTX-FIELDS", fmt.Sprintf("getPathAndQuery call #%d announce flag", i+1), p.Pos(call.Pos()), "the isAnnounce flag is not a constant")
 				continue
 			}
@@ -631,6 +642,62 @@ func c20ContentBase(c *Ctx) {
 // The client appends the control attribute to the end of the URL string: after
 // the query when there is one. The server must therefore look at the query
 // first and at the path only when the query did not carry the token.
+// c20ProbeToken: call looks for a constant token in its first argument: strings.HasSuffix(x, tok),
+// a search helper of the repository given (x, tok), or a helper given x alone that looks for a
+// constant token in that parameter. Returns the token.
+func c20ProbeToken(call *ssa.Call, depth int) (string, bool) {
+	constStr := func(v ssa.Value) (string, bool) {
+		k, ok := v.(*ssa.Const)
+		if !ok || k.Value == nil || k.Value.Kind() != constant.String {
+			return "", false
+		}
+		return constant.StringVal(k.Value), true
+	}
+	if call.Call.IsInvoke() || len(call.Call.Args) == 0 {
+		return "", false
+	}
+	cn := core.CalleeObjName(call)
+	if cn == "strings.HasSuffix" && len(call.Call.Args) == 2 {
+		return constStr(call.Call.Args[1])
+	}
+	h := call.Call.StaticCallee()
+	if h == nil || h.Blocks == nil || !core.InRepo(h) || depth >= 2 {
+		return "", false
+	}
+	if bt, isB := call.Call.Args[0].Type().Underlying().(*types.Basic); !isB || bt.Info()&types.IsString == 0 {
+		return "", false
+	}
+	if len(call.Call.Args) == 2 {
+		if tok, ok := constStr(call.Call.Args[1]); ok && len(tok) > 0 {
+			// a search helper: its result is an index (int) or a verdict
+			return tok, true
+		}
+		return "", false
+	}
+	if len(call.Call.Args) != 1 {
+		return "", false
+	}
+	for _, b := range h.Blocks {
+		for _, in := range b.Instrs {
+			c2, ok := in.(*ssa.Call)
+			if !ok || len(c2.Call.Args) == 0 {
+				continue
+			}
+			subj := c2.Call.Args[0]
+			if sl, isSl := subj.(*ssa.Slice); isSl {
+				subj = sl.X
+			}
+			if subj != ssa.Value(h.Params[0]) {
+				continue
+			}
+			if tok, ok := c20ProbeToken(c2, depth+1); ok {
+				return tok, true
+			}
+		}
+	}
+	return "", false
+}
+
 func c20ProbeOrder(c *Ctx) {
 	p, r := c.P, c.R
 	r.Rule("C20/PROBE-ORDER", "in the server's URL analysis the path is probed for a token only where the probe of the query for the same token has failed (the client appends the control attribute after the query when one exists, so the end of the URL is the query)", 3)
@@ -648,15 +715,11 @@ func c20ProbeOrder(c *Ctx) {
 		for _, b := range fn.Blocks {
 			for _, in := range b.Instrs {
 				call, ok := in.(*ssa.Call)
-				if !ok || len(call.Call.Args) != 2 {
+				if !ok || len(call.Call.Args) == 0 || len(call.Call.Args) > 2 {
 					continue
 				}
-				cn := core.CalleeObjName(call)
-				if !strings.HasSuffix(cn, ".stringsReverseIndex") && !strings.HasSuffix(cn, "strings.HasSuffix") {
-					continue
-				}
-				k, ok := call.Call.Args[1].(*ssa.Const)
-				if !ok || k.Value == nil || k.Value.Kind() != constant.String {
+				tok, isProbe := c20ProbeToken(call, 0)
+				if !isProbe {
 					continue
 				}
 				subj := call.Call.Args[0]
@@ -666,9 +729,9 @@ func c20ProbeOrder(c *Ctx) {
 				path := core.PathOf(subj)
 				switch {
 				case strings.HasSuffix(path, ".RawQuery"):
-					probes = append(probes, probe{call, constant.StringVal(k.Value), true})
+					probes = append(probes, probe{call, tok, true})
 				case strings.HasSuffix(path, ".Path"):
-					probes = append(probes, probe{call, constant.StringVal(k.Value), false})
+					probes = append(probes, probe{call, tok, false})
 				default:
 					r.Fail("C20/PROBE-ORDER", name+" probes "+path, p.Pos(call.Pos()), "probe of something that is neither the path nor the query of the URL")
 				}
@@ -678,6 +741,12 @@ func c20ProbeOrder(c *Ctx) {
 			for _, cd := range core.Conds(at) {
 				if cd.V == ssa.Value(q) && !cd.Pol {
 					return true // !HasSuffix
+				}
+				// `_, _, ok := cut(x, token)`: the ok result is false
+				if ex, isEx := cd.V.(*ssa.Extract); isEx && ex.Tuple == ssa.Value(q) && !cd.Pol {
+					if bt, isB := ex.Type().Underlying().(*types.Basic); isB && bt.Kind() == types.Bool {
+						return true
+					}
 				}
 				if bo, ok := cd.V.(*ssa.BinOp); ok && bo.X == ssa.Value(q) {
 					if k, ok := bo.Y.(*ssa.Const); ok && k.Int64() == 0 {
